@@ -14,14 +14,14 @@ open MpfVerif.Py MpfVerif.Driver MpfVerif.Gen.DriverOps
 
 /-- hand result seen from an accumulated command list -/
 def handK (s : Driver.St) (cmds0 : List Cmd) : Except Err (Driver.St × List Cmd) → Bool × Obs
-  | .ok (s', cmds) => (true, ⟨s'.timedDisable, s'.limitDue, cmds0 ++ cmds.map Cmd.obs, false⟩)
-  | .error _ => (false, ⟨s.timedDisable, s.limitDue, cmds0, false⟩)
+  | .ok (s', cmds) => (true, ⟨s'.timedDisable, s'.limitDue, cmds0 ++ cmds.map Cmd.obs, s'.pend, false⟩)
+  | .error _ => (false, ⟨s.timedDisable, s.limitDue, cmds0, s.pend, false⟩)
 
 def outOk : Except Err Out → Bool
   | .ok _ => true | .error _ => false
 
 def genK (s : Driver.St) (cmds0 : List Cmd) (r : List Eff × Except Err Out) : Bool × Obs :=
-  (outOk r.2, r.1.foldl (applyEff s.now) ⟨s.timedDisable, s.limitDue, cmds0, false⟩)
+  (outOk r.2, r.1.foldl (applyEff s.now) ⟨s.timedDisable, s.limitDue, cmds0, s.pend, false⟩)
 
 def NumOrNone (v : PyVal) : Prop := v = .none ∨ v.num.isSome = true
 
@@ -38,7 +38,6 @@ theorem isInt_cases {v : PyVal} (h : v.isInt = true) : (∃ i, v = .int i) ∨ (
   cases v <;> simp_all [PyVal.isInt]
 
 theorem timed_enable_run (c : Ctx) (ora : Oracle) (s : Driver.St) (l : Locals) (cmds0 : List Cmd)
-    (hmw : l "max_wait_ms" = .none)
     (hint : ∀ x v, vPulseMs c x = .ok v → v.isInt = true) (hint2 : ∀ x v, vTimedMs c x = .ok v → v.isInt = true) :
     genK s cmds0 (execEL c ora l [] timed_enable) =
       handK s cmds0 (doTimedEnable c s (l "timed_enable_ms") (l "hold_power") (l "pulse_ms") (l "pulse_power")) := by
@@ -50,32 +49,32 @@ theorem timed_enable_run (c : Ctx) (ora : Oracle) (s : Driver.St) (l : Locals) (
   cases h1 : vPulseMs c ms with
   | error e =>
     simp only [vPulseMs] at h1
-    simp [genK, handK, outOk, execEL, execES, evalArgs, evalA, evalE, argLocals, List.lookup, bind, Except.bind, pure, Except.pure, bindTarget, p_notify_psu_and_get_wait_ms, evalC, arith, applyEff, setTimer, Eff.arg, Cmd.obs, delayMs, timed_enable, hmw, hte, hhp, hms, hpw, h1]
+    rcases Classical.em (l "max_wait_ms" = .none) with hmw | hmw <;> simp [genK, handK, outOk, execEL, execES, evalArgs, evalA, evalE, argLocals, List.lookup, bind, Except.bind, pure, Except.pure, bindTarget, p_notify_psu_and_get_wait_ms, evalC, arith, applyEff, setTimer, addPend, enableNow, Eff.arg, Cmd.obs, delayMs, timed_enable, hmw, hte, hhp, hms, hpw, h1]
   | ok pd =>
     cases h2 : vPulsePower c pw with
     | error e =>
       simp only [vPulseMs, vPulsePower] at h1 h2
-      simp [genK, handK, outOk, execEL, execES, evalArgs, evalA, evalE, argLocals, List.lookup, bind, Except.bind, pure, Except.pure, bindTarget, p_notify_psu_and_get_wait_ms, evalC, arith, applyEff, setTimer, Eff.arg, Cmd.obs, delayMs, timed_enable, hmw, hte, hhp, hms, hpw, h1, h2]
+      rcases Classical.em (l "max_wait_ms" = .none) with hmw | hmw <;> simp [genK, handK, outOk, execEL, execES, evalArgs, evalA, evalE, argLocals, List.lookup, bind, Except.bind, pure, Except.pure, bindTarget, p_notify_psu_and_get_wait_ms, evalC, arith, applyEff, setTimer, addPend, enableNow, Eff.arg, Cmd.obs, delayMs, timed_enable, hmw, hte, hhp, hms, hpw, h1, h2]
     | ok pp =>
       cases h3 : vTimedMs c te with
       | error e =>
         simp only [vPulseMs, vPulsePower, vTimedMs] at h1 h2 h3
-        simp [genK, handK, outOk, execEL, execES, evalArgs, evalA, evalE, argLocals, List.lookup, bind, Except.bind, pure, Except.pure, bindTarget, p_notify_psu_and_get_wait_ms, evalC, arith, applyEff, setTimer, Eff.arg, Cmd.obs, delayMs, timed_enable, hmw, hte, hhp, hms, hpw, h1, h2, h3]
+        rcases Classical.em (l "max_wait_ms" = .none) with hmw | hmw <;> simp [genK, handK, outOk, execEL, execES, evalArgs, evalA, evalE, argLocals, List.lookup, bind, Except.bind, pure, Except.pure, bindTarget, p_notify_psu_and_get_wait_ms, evalC, arith, applyEff, setTimer, addPend, enableNow, Eff.arg, Cmd.obs, delayMs, timed_enable, hmw, hte, hhp, hms, hpw, h1, h2, h3]
       | ok hd =>
         cases h4 : vHoldPower c hp with
         | error e =>
           simp only [vPulseMs, vPulsePower, vTimedMs, vHoldPower] at h1 h2 h3 h4
-          simp [genK, handK, outOk, execEL, execES, evalArgs, evalA, evalE, argLocals, List.lookup, bind, Except.bind, pure, Except.pure, bindTarget, p_notify_psu_and_get_wait_ms, evalC, arith, applyEff, setTimer, Eff.arg, Cmd.obs, delayMs, timed_enable, hmw, hte, hhp, hms, hpw, h1, h2, h3, h4]
+          rcases Classical.em (l "max_wait_ms" = .none) with hmw | hmw <;> simp [genK, handK, outOk, execEL, execES, evalArgs, evalA, evalE, argLocals, List.lookup, bind, Except.bind, pure, Except.pure, bindTarget, p_notify_psu_and_get_wait_ms, evalC, arith, applyEff, setTimer, addPend, enableNow, Eff.arg, Cmd.obs, delayMs, timed_enable, hmw, hte, hhp, hms, hpw, h1, h2, h3, h4]
         | ok h =>
           have i1 := hint _ _ h1
           have i2 := hint2 _ _ h3
           simp only [vPulseMs, vPulsePower, vTimedMs, vHoldPower] at h1 h2 h3 h4
           rcases isInt_cases i1 with ⟨a, rfl⟩ | ⟨_ | _, rfl⟩ <;> rcases isInt_cases i2 with ⟨b, rfl⟩ | ⟨_ | _, rfl⟩ <;>
-          simp [genK, handK, outOk, execEL, execES, evalArgs, evalA, evalE, argLocals, List.lookup, bind, Except.bind, pure, Except.pure, bindTarget, p_notify_psu_and_get_wait_ms, evalC, arith, applyEff, setTimer, Eff.arg, Cmd.obs, delayMs, timed_enable, hmw, hte, hhp, hms, hpw, h1, h2, h3, h4]
+          rcases Classical.em (l "max_wait_ms" = .none) with hmw | hmw <;> simp [genK, handK, outOk, execEL, execES, evalArgs, evalA, evalE, argLocals, List.lookup, bind, Except.bind, pure, Except.pure, bindTarget, p_notify_psu_and_get_wait_ms, evalC, arith, applyEff, setTimer, addPend, enableNow, Eff.arg, Cmd.obs, delayMs, timed_enable, hmw, hte, hhp, hms, hpw, h1, h2, h3, h4]
 
 theorem disable_run (c : Ctx) (ora : Oracle) (s : Driver.St) (l : Locals) (cmds0 : List Cmd) :
     genK s cmds0 (execEL c ora l [] disable) = handK s cmds0 (.ok (doDisable s)) := by
-  simp [genK, handK, outOk, execEL, execES, evalArgs, evalA, evalE, argLocals, List.lookup, bind, Except.bind, pure, Except.pure, bindTarget, p_notify_psu_and_get_wait_ms, evalC, arith, applyEff, setTimer, Eff.arg, Cmd.obs, delayMs, disable, doDisable]
+  simp [genK, handK, outOk, execEL, execES, evalArgs, evalA, evalE, argLocals, List.lookup, bind, Except.bind, pure, Except.pure, bindTarget, p_notify_psu_and_get_wait_ms, evalC, arith, applyEff, setTimer, addPend, enableNow, Eff.arg, Cmd.obs, delayMs, disable, doDisable]
 
 
 theorem pulse_now_run (c : Ctx) (ora : Oracle) (s : Driver.St) (l : Locals) (cmds0 : List Cmd)
@@ -85,19 +84,19 @@ theorem pulse_now_run (c : Ctx) (ora : Oracle) (s : Driver.St) (l : Locals) (cmd
   unfold pulseNow
   by_cases hw : (c.cfg "pulse_with_timed_enable").truthy = true
   · have key := timed_enable_run c ora s
-      (argLocals [("pulse_ms", l "pulse_ms"), ("pulse_power", l "pulse_power")]) cmds0 (by simp [argLocals, List.lookup]) hint hint2
+      (argLocals [("pulse_ms", l "pulse_ms"), ("pulse_power", l "pulse_power")]) cmds0 hint hint2
     simp only [argLocals, List.lookup] at key
-    simp [genK, handK, outOk, execEL, execES, evalArgs, evalA, evalE, argLocals, List.lookup, bind, Except.bind, pure, Except.pure, bindTarget, p_notify_psu_and_get_wait_ms, evalC, arith, applyEff, setTimer, Eff.arg, Cmd.obs, delayMs, p_pulse_now, hw] at key ⊢
+    simp [genK, handK, outOk, execEL, execES, evalArgs, evalA, evalE, argLocals, List.lookup, bind, Except.bind, pure, Except.pure, bindTarget, p_notify_psu_and_get_wait_ms, evalC, arith, applyEff, setTimer, addPend, enableNow, Eff.arg, Cmd.obs, delayMs, p_pulse_now, hw] at key ⊢
     rcases hx : execEL c ora (argLocals [("pulse_ms", l "pulse_ms"), ("pulse_power", l "pulse_power")]) [] timed_enable
       with ⟨L1, r1⟩
     rw [hx] at key
     rcases r1 with e | (l1 | v) <;> simpa using key
   · rcases isInt_cases hpm with ⟨a, ha⟩ | ⟨_ | _, ha⟩ <;>
     rcases hm : (c.env "max_pulse").num with _ | (_ | m) <;> simp [hm] at hmax <;>
-    simp [genK, handK, outOk, execEL, execES, evalArgs, evalA, evalE, argLocals, List.lookup, bind, Except.bind, pure, Except.pure, bindTarget, p_notify_psu_and_get_wait_ms, evalC, arith, applyEff, setTimer, Eff.arg, Cmd.obs, delayMs, p_pulse_now, hw, ha, pyCmp, num_int, num_bool, hm, cmpOp, msOf]
+    simp [genK, handK, outOk, execEL, execES, evalArgs, evalA, evalE, argLocals, List.lookup, bind, Except.bind, pure, Except.pure, bindTarget, p_notify_psu_and_get_wait_ms, evalC, arith, applyEff, setTimer, addPend, enableNow, Eff.arg, Cmd.obs, delayMs, p_pulse_now, hw, ha, pyCmp, num_int, num_bool, hm, cmpOp, msOf]
     · by_cases h0 : 0 < a * 1000000 <;> by_cases h1 : a * 1000000 ≤ m <;>
-        simp [h0, h1, applyEff, setTimer, Eff.arg, Cmd.obs, delayMs, List.lookup]
-    · by_cases h1 : 1000000 ≤ m <;> simp [h1, applyEff, setTimer, Eff.arg, Cmd.obs, delayMs, List.lookup]
+        simp [h0, h1, applyEff, setTimer, addPend, enableNow, Eff.arg, Cmd.obs, delayMs, List.lookup]
+    · by_cases h1 : 1000000 ≤ m <;> simp [h1, applyEff, setTimer, addPend, enableNow, Eff.arg, Cmd.obs, delayMs, List.lookup]
 
 
 theorem pulse_refines (c : Ctx) (ora : Oracle) (s : Driver.St) (ms pw : PyVal)
@@ -107,18 +106,18 @@ theorem pulse_refines (c : Ctx) (ora : Oracle) (s : Driver.St) (ms pw : PyVal)
   cases h1 : vPulseMs c ms with
   | error e =>
     simp only [vPulseMs] at h1
-    simp [hand, gen, doOp, callE, pulse, vPulseMs, vPulsePower, genK, handK, outOk, execEL, execES, evalArgs, evalA, evalE, argLocals, List.lookup, bind, Except.bind, pure, Except.pure, bindTarget, p_notify_psu_and_get_wait_ms, evalC, arith, applyEff, setTimer, Eff.arg, Cmd.obs, delayMs, h1]
+    simp [hand, gen, doOp, callE, pulse, vPulseMs, vPulsePower, genK, handK, outOk, execEL, execES, evalArgs, evalA, evalE, argLocals, List.lookup, bind, Except.bind, pure, Except.pure, bindTarget, p_notify_psu_and_get_wait_ms, evalC, arith, applyEff, setTimer, addPend, enableNow, Eff.arg, Cmd.obs, delayMs, h1]
   | ok pm =>
     cases h2 : vPulsePower c pw with
     | error e =>
       simp only [vPulseMs, vPulsePower] at h1 h2
-      simp [hand, gen, doOp, callE, pulse, vPulseMs, vPulsePower, genK, handK, outOk, execEL, execES, evalArgs, evalA, evalE, argLocals, List.lookup, bind, Except.bind, pure, Except.pure, bindTarget, p_notify_psu_and_get_wait_ms, evalC, arith, applyEff, setTimer, Eff.arg, Cmd.obs, delayMs, h1, h2]
+      simp [hand, gen, doOp, callE, pulse, vPulseMs, vPulsePower, genK, handK, outOk, execEL, execES, evalArgs, evalA, evalE, argLocals, List.lookup, bind, Except.bind, pure, Except.pure, bindTarget, p_notify_psu_and_get_wait_ms, evalC, arith, applyEff, setTimer, addPend, enableNow, Eff.arg, Cmd.obs, delayMs, h1, h2]
     | ok pp =>
       have ipm := hint _ _ h1
       have key := pulse_now_run c ora s (argLocals [("pulse_ms", pm), ("pulse_power", pp)]) []
         (by simpa [argLocals, List.lookup] using ipm) hmax hint hint2
       simp only [vPulseMs, vPulsePower] at h1 h2
-      simp [hand, gen, doOp, callE, pulse, vPulseMs, vPulsePower, genK, handK, outOk, execEL, execES, evalArgs, evalA, evalE, argLocals, List.lookup, bind, Except.bind, pure, Except.pure, bindTarget, p_notify_psu_and_get_wait_ms, evalC, arith, applyEff, setTimer, Eff.arg, Cmd.obs, delayMs, h1, h2, pyCmp, num_int, cmpOp]
+      simp [hand, gen, doOp, callE, pulse, vPulseMs, vPulsePower, genK, handK, outOk, execEL, execES, evalArgs, evalA, evalE, argLocals, List.lookup, bind, Except.bind, pure, Except.pure, bindTarget, p_notify_psu_and_get_wait_ms, evalC, arith, applyEff, setTimer, addPend, enableNow, Eff.arg, Cmd.obs, delayMs, h1, h2, pyCmp, num_int, cmpOp]
       rw [execEL_frame]
       simp only [argLocals, List.lookup, genK, handK] at key
       simp at key
@@ -129,7 +128,7 @@ theorem pulse_refines (c : Ctx) (ora : Oracle) (s : Driver.St) (ms pw : PyVal)
 
 theorem disable_refines (c : Ctx) (ora : Oracle) (s : Driver.St) :
     hand s (doOp c s .disable) = gen s (callE c ora disable []) := by
-  simp [hand, gen, doOp, callE, disable, doDisable, genK, handK, outOk, execEL, execES, evalArgs, evalA, evalE, argLocals, List.lookup, bind, Except.bind, pure, Except.pure, bindTarget, p_notify_psu_and_get_wait_ms, evalC, arith, applyEff, setTimer, Eff.arg, Cmd.obs, delayMs]
+  simp [hand, gen, doOp, callE, disable, doDisable, genK, handK, outOk, execEL, execES, evalArgs, evalA, evalE, argLocals, List.lookup, bind, Except.bind, pure, Except.pure, bindTarget, p_notify_psu_and_get_wait_ms, evalC, arith, applyEff, setTimer, addPend, enableNow, Eff.arg, Cmd.obs, delayMs]
 
 theorem timed_enable_refines (c : Ctx) (ora : Oracle) (s : Driver.St) (te hp ms pw : PyVal)
     (hint : ∀ x v, vPulseMs c x = .ok v → v.isInt = true) (hint2 : ∀ x v, vTimedMs c x = .ok v → v.isInt = true) :
@@ -137,7 +136,7 @@ theorem timed_enable_refines (c : Ctx) (ora : Oracle) (s : Driver.St) (te hp ms 
       gen s (callE c ora timed_enable [("timed_enable_ms", te), ("hold_power", hp), ("pulse_ms", ms), ("pulse_power", pw)]) := by
   have key := timed_enable_run c ora s
     (argLocals [("timed_enable_ms", te), ("hold_power", hp), ("pulse_ms", ms), ("pulse_power", pw)]) []
-    (by simp [argLocals, List.lookup]) hint hint2
+    hint hint2
   simp only [argLocals, List.lookup, genK, handK] at key
   simp at key
   simp only [hand, gen, doOp, callE, argLocals]
@@ -155,40 +154,40 @@ theorem enable_refines (c : Ctx) (ora : Oracle) (s : Driver.St) (ms pw hp : PyVa
   cases h1 : vPulseMs c ms with
   | error e =>
     simp only [vPulseMs] at h1
-    simp [hand, gen, doOp, callE, enable, vPulseMs, vPulsePower, vHoldPower, genK, handK, outOk, execEL, execES, evalArgs, evalA, evalE, argLocals, List.lookup, bind, Except.bind, pure, Except.pure, bindTarget, p_notify_psu_and_get_wait_ms, evalC, arith, applyEff, setTimer, Eff.arg, Cmd.obs, delayMs, h1]
+    simp [hand, gen, doOp, callE, enable, vPulseMs, vPulsePower, vHoldPower, genK, handK, outOk, execEL, execES, evalArgs, evalA, evalE, argLocals, List.lookup, bind, Except.bind, pure, Except.pure, bindTarget, p_notify_psu_and_get_wait_ms, evalC, arith, applyEff, setTimer, addPend, enableNow, Eff.arg, Cmd.obs, delayMs, h1]
   | ok pm =>
     cases h2 : vPulsePower c pw with
     | error e =>
       simp only [vPulseMs, vPulsePower] at h1 h2
-      simp [hand, gen, doOp, callE, enable, vPulseMs, vPulsePower, vHoldPower, genK, handK, outOk, execEL, execES, evalArgs, evalA, evalE, argLocals, List.lookup, bind, Except.bind, pure, Except.pure, bindTarget, p_notify_psu_and_get_wait_ms, evalC, arith, applyEff, setTimer, Eff.arg, Cmd.obs, delayMs, h1, h2]
+      simp [hand, gen, doOp, callE, enable, vPulseMs, vPulsePower, vHoldPower, genK, handK, outOk, execEL, execES, evalArgs, evalA, evalE, argLocals, List.lookup, bind, Except.bind, pure, Except.pure, bindTarget, p_notify_psu_and_get_wait_ms, evalC, arith, applyEff, setTimer, addPend, enableNow, Eff.arg, Cmd.obs, delayMs, h1, h2]
     | ok pp =>
       cases h3 : vHoldPower c hp with
       | error e =>
         simp only [vPulseMs, vPulsePower, vHoldPower] at h1 h2 h3
-        simp [hand, gen, doOp, callE, enable, vPulseMs, vPulsePower, vHoldPower, genK, handK, outOk, execEL, execES, evalArgs, evalA, evalE, argLocals, List.lookup, bind, Except.bind, pure, Except.pure, bindTarget, p_notify_psu_and_get_wait_ms, evalC, arith, applyEff, setTimer, Eff.arg, Cmd.obs, delayMs, h1, h2, h3]
+        simp [hand, gen, doOp, callE, enable, vPulseMs, vPulsePower, vHoldPower, genK, handK, outOk, execEL, execES, evalArgs, evalA, evalE, argLocals, List.lookup, bind, Except.bind, pure, Except.pure, bindTarget, p_notify_psu_and_get_wait_ms, evalC, arith, applyEff, setTimer, addPend, enableNow, Eff.arg, Cmd.obs, delayMs, h1, h2, h3]
       | ok h =>
         simp only [vPulseMs, vPulsePower, vHoldPower] at h1 h2 h3
         cases h4 : pyCmp "==" h (.flt 0) with
-        | error e => simp [hand, gen, doOp, callE, enable, vPulseMs, vPulsePower, vHoldPower, genK, handK, outOk, execEL, execES, evalArgs, evalA, evalE, argLocals, List.lookup, bind, Except.bind, pure, Except.pure, bindTarget, p_notify_psu_and_get_wait_ms, evalC, arith, applyEff, setTimer, Eff.arg, Cmd.obs, delayMs, h1, h2, h3, h4]
+        | error e => simp [hand, gen, doOp, callE, enable, vPulseMs, vPulsePower, vHoldPower, genK, handK, outOk, execEL, execES, evalArgs, evalA, evalE, argLocals, List.lookup, bind, Except.bind, pure, Except.pure, bindTarget, p_notify_psu_and_get_wait_ms, evalC, arith, applyEff, setTimer, addPend, enableNow, Eff.arg, Cmd.obs, delayMs, h1, h2, h3, h4]
         | ok z =>
           cases z with
-          | true => simp [hand, gen, doOp, callE, enable, vPulseMs, vPulsePower, vHoldPower, genK, handK, outOk, execEL, execES, evalArgs, evalA, evalE, argLocals, List.lookup, bind, Except.bind, pure, Except.pure, bindTarget, p_notify_psu_and_get_wait_ms, evalC, arith, applyEff, setTimer, Eff.arg, Cmd.obs, delayMs, h1, h2, h3, h4, throw, throwThe, MonadExceptOf.throw]
+          | true => simp [hand, gen, doOp, callE, enable, vPulseMs, vPulsePower, vHoldPower, genK, handK, outOk, execEL, execES, evalArgs, evalA, evalE, argLocals, List.lookup, bind, Except.bind, pure, Except.pure, bindTarget, p_notify_psu_and_get_wait_ms, evalC, arith, applyEff, setTimer, addPend, enableNow, Eff.arg, Cmd.obs, delayMs, h1, h2, h3, h4, throw, throwThe, MonadExceptOf.throw]
           | false =>
             rcases hmd with hn | hn
-            · simp [hand, gen, doOp, callE, enable, p_enable_now, vPulseMs, vPulsePower, vHoldPower, genK, handK, outOk, execEL, execES, evalArgs, evalA, evalE, argLocals, List.lookup, bind, Except.bind, pure, Except.pure, bindTarget, p_notify_psu_and_get_wait_ms, evalC, arith, applyEff, setTimer, Eff.arg, Cmd.obs, delayMs, h1, h2, h3, h4, hn, PyVal.truthy, pyCmp_wait0]
+            · simp [hand, gen, doOp, callE, enable, p_enable_now, vPulseMs, vPulsePower, vHoldPower, genK, handK, outOk, execEL, execES, evalArgs, evalA, evalE, argLocals, List.lookup, bind, Except.bind, pure, Except.pure, bindTarget, p_notify_psu_and_get_wait_ms, evalC, arith, applyEff, setTimer, addPend, enableNow, Eff.arg, Cmd.obs, delayMs, h1, h2, h3, h4, hn, PyVal.truthy, pyCmp_wait0]
             · cases hl : s.limitDue <;> cases hv : c.cfg "max_hold_duration" with
               | none => simp [hv, PyVal.num] at hn
               | str x => simp [hv, PyVal.num] at hn
-              | bool b => cases b <;> simp [hand, gen, doOp, callE, enable, p_enable_now, vPulseMs, vPulsePower, vHoldPower, genK, handK, outOk, execEL, execES, evalArgs, evalA, evalE, argLocals, List.lookup, bind, Except.bind, pure, Except.pure, bindTarget, p_notify_psu_and_get_wait_ms, evalC, arith, applyEff, setTimer, Eff.arg, Cmd.obs, delayMs, h1, h2, h3, h4, hv, hl, PyVal.truthy, pyCmp_wait0, secsToMs, num_int, num_bool]
-              | int i => cases hi : (i != 0) <;> simp [hand, gen, doOp, callE, enable, p_enable_now, vPulseMs, vPulsePower, vHoldPower, genK, handK, outOk, execEL, execES, evalArgs, evalA, evalE, argLocals, List.lookup, bind, Except.bind, pure, Except.pure, bindTarget, p_notify_psu_and_get_wait_ms, evalC, arith, applyEff, setTimer, Eff.arg, Cmd.obs, delayMs, h1, h2, h3, h4, hv, hl, PyVal.truthy, pyCmp_wait0, secsToMs, num_int, num_bool, num_flt, flt_ms, hi]
-              | flt m => cases hi : (m != 0) <;> simp [hand, gen, doOp, callE, enable, p_enable_now, vPulseMs, vPulsePower, vHoldPower, genK, handK, outOk, execEL, execES, evalArgs, evalA, evalE, argLocals, List.lookup, bind, Except.bind, pure, Except.pure, bindTarget, p_notify_psu_and_get_wait_ms, evalC, arith, applyEff, setTimer, Eff.arg, Cmd.obs, delayMs, h1, h2, h3, h4, hv, hl, PyVal.truthy, pyCmp_wait0, secsToMs, num_int, num_bool, num_flt, flt_ms, hi]
-              | nan => simp [hand, gen, doOp, callE, enable, p_enable_now, vPulseMs, vPulsePower, vHoldPower, genK, handK, outOk, execEL, execES, evalArgs, evalA, evalE, argLocals, List.lookup, bind, Except.bind, pure, Except.pure, bindTarget, p_notify_psu_and_get_wait_ms, evalC, arith, applyEff, setTimer, Eff.arg, Cmd.obs, delayMs, h1, h2, h3, h4, hv, hl, PyVal.truthy, pyCmp_wait0, secsToMs, num_int, num_bool, num_nan]
+              | bool b => cases b <;> simp [hand, gen, doOp, callE, enable, p_enable_now, vPulseMs, vPulsePower, vHoldPower, genK, handK, outOk, execEL, execES, evalArgs, evalA, evalE, argLocals, List.lookup, bind, Except.bind, pure, Except.pure, bindTarget, p_notify_psu_and_get_wait_ms, evalC, arith, applyEff, setTimer, addPend, enableNow, Eff.arg, Cmd.obs, delayMs, h1, h2, h3, h4, hv, hl, PyVal.truthy, pyCmp_wait0, secsToMs, num_int, num_bool]
+              | int i => cases hi : (i != 0) <;> simp [hand, gen, doOp, callE, enable, p_enable_now, vPulseMs, vPulsePower, vHoldPower, genK, handK, outOk, execEL, execES, evalArgs, evalA, evalE, argLocals, List.lookup, bind, Except.bind, pure, Except.pure, bindTarget, p_notify_psu_and_get_wait_ms, evalC, arith, applyEff, setTimer, addPend, enableNow, Eff.arg, Cmd.obs, delayMs, h1, h2, h3, h4, hv, hl, PyVal.truthy, pyCmp_wait0, secsToMs, num_int, num_bool, num_flt, flt_ms, hi]
+              | flt m => cases hi : (m != 0) <;> simp [hand, gen, doOp, callE, enable, p_enable_now, vPulseMs, vPulsePower, vHoldPower, genK, handK, outOk, execEL, execES, evalArgs, evalA, evalE, argLocals, List.lookup, bind, Except.bind, pure, Except.pure, bindTarget, p_notify_psu_and_get_wait_ms, evalC, arith, applyEff, setTimer, addPend, enableNow, Eff.arg, Cmd.obs, delayMs, h1, h2, h3, h4, hv, hl, PyVal.truthy, pyCmp_wait0, secsToMs, num_int, num_bool, num_flt, flt_ms, hi]
+              | nan => simp [hand, gen, doOp, callE, enable, p_enable_now, vPulseMs, vPulsePower, vHoldPower, genK, handK, outOk, execEL, execES, evalArgs, evalA, evalE, argLocals, List.lookup, bind, Except.bind, pure, Except.pure, bindTarget, p_notify_psu_and_get_wait_ms, evalC, arith, applyEff, setTimer, addPend, enableNow, Eff.arg, Cmd.obs, delayMs, h1, h2, h3, h4, hv, hl, PyVal.truthy, pyCmp_wait0, secsToMs, num_int, num_bool, num_nan]
 
 
 /-- the `enable_limit_reached` delay fires (the delay manager has already dropped the entry): `_enable_limit_reached` -/
 theorem limit_reached_refines (c : Ctx) (ora : Oracle) (s : Driver.St) :
     hand s (.ok (doDisable s)) = gen s (callE c ora p_enable_limit_reached []) := by
-  simp [hand, gen, callE, p_enable_limit_reached, disable, doDisable, genK, handK, outOk, execEL, execES, evalArgs, evalA, evalE, argLocals, List.lookup, bind, Except.bind, pure, Except.pure, bindTarget, p_notify_psu_and_get_wait_ms, evalC, arith, applyEff, setTimer, Eff.arg, Cmd.obs, delayMs]
+  simp [hand, gen, callE, p_enable_limit_reached, disable, doDisable, genK, handK, outOk, execEL, execES, evalArgs, evalA, evalE, argLocals, List.lookup, bind, Except.bind, pure, Except.pure, bindTarget, p_notify_psu_and_get_wait_ms, evalC, arith, applyEff, setTimer, addPend, enableNow, Eff.arg, Cmd.obs, delayMs]
 
 theorem event_pulse_is_pulse (c : Ctx) (ora : Oracle) (s : Driver.St) (a b m : PyVal) :
     gen s (callE c ora event_pulse [("pulse_ms", a), ("pulse_power", b), ("max_wait_ms", m)]) =
@@ -223,5 +222,148 @@ theorem event_disable_is_disable (c : Ctx) (ora : Oracle) (s : Driver.St)  :
   try simp only [beq_self_eq_true, String.reduceBEq, Option.getD_some]
   generalize execEL c ora _ [] disable = x
   rcases x with ⟨L, e | (l1 | v)⟩ <;> simp [bindTarget]
+
+/-! ## requests with `max_wait_ms` and the callbacks of the PSU-delayed calls -/
+
+/-- the PSU answers `w` to `get_wait_time_for_pulse` -/
+def PsuAnswers (ora : Oracle) (w : PyVal) : Prop := ∀ args, ora ⟨"psu", "get_wait_time_for_pulse", args⟩ = w
+
+theorem timed_enableW_refines (c : Ctx) (ora : Oracle) (s : Driver.St) (te hp ms pw mw : PyVal)
+    (hint : ∀ x v, vPulseMs c x = .ok v → v.isInt = true) (hint2 : ∀ x v, vTimedMs c x = .ok v → v.isInt = true) :
+    hand s (doOp c s (.timedEnableW te hp ms pw mw)) =
+      gen s (callE c ora timed_enable [("timed_enable_ms", te), ("hold_power", hp), ("pulse_ms", ms), ("pulse_power", pw),
+        ("max_wait_ms", mw)]) := by
+  have key := timed_enable_run c ora s
+    (argLocals [("timed_enable_ms", te), ("hold_power", hp), ("pulse_ms", ms), ("pulse_power", pw), ("max_wait_ms", mw)]) []
+    hint hint2
+  simp only [argLocals, List.lookup, genK, handK] at key
+  simp at key
+  simp only [hand, gen, doOp, callE, argLocals]
+  rcases hx : execEL c ora (argLocals [("timed_enable_ms", te), ("hold_power", hp), ("pulse_ms", ms), ("pulse_power", pw),
+    ("max_wait_ms", mw)]) [] timed_enable with ⟨L1, r1⟩
+  rw [hx] at key
+  rcases hd : doTimedEnable c s te hp ms pw with e | ⟨s', cmds⟩ <;> rw [hd] at key <;>
+  rcases r1 with e | (l1 | v) <;> simp [outOk] at key ⊢ <;> exact key.symm
+
+/-- the delayed callback `_pulse_now(pulse_ms, pulse_power)` -/
+theorem pulse_now_refines (c : Ctx) (ora : Oracle) (s : Driver.St) (pm pp : PyVal)
+    (hpm : pm.isInt = true) (hmax : (c.env "max_pulse").num.isSome = true)
+    (hint : ∀ x v, vPulseMs c x = .ok v → v.isInt = true) (hint2 : ∀ x v, vTimedMs c x = .ok v → v.isInt = true) :
+    hand s (pulseNow c s pm pp) = gen s (callE c ora p_pulse_now [("pulse_ms", pm), ("pulse_power", pp)]) := by
+  have key := pulse_now_run c ora s (argLocals [("pulse_ms", pm), ("pulse_power", pp)]) []
+    (by simpa [argLocals, List.lookup] using hpm) hmax hint hint2
+  simp only [argLocals, List.lookup, genK, handK] at key
+  simp at key
+  simp only [hand, gen, callE, argLocals]
+  rcases hx : execEL c ora (argLocals [("pulse_ms", pm), ("pulse_power", pp)]) [] p_pulse_now with ⟨L1, r1⟩
+  rw [hx] at key
+  rcases hd : pulseNow c s pm pp with e | ⟨s', cmds⟩ <;> rw [hd] at key <;>
+  rcases r1 with e | (l1 | v) <;> simp [outOk] at key ⊢ <;> exact key.symm
+
+
+/-- the delayed callback `_enable_now(pulse_ms, pulse_power, hold_power)` -/
+theorem enable_now_refines (c : Ctx) (ora : Oracle) (s : Driver.St) (pm pp h : PyVal)
+    (hmd : NumOrNone (c.cfg "max_hold_duration")) :
+    hand s (.ok (enableNow c s pm pp h)) =
+      gen s (callE c ora p_enable_now [("pulse_ms", pm), ("pulse_power", pp), ("hold_power", h)]) := by
+  rcases hmd with hn | hn
+  · simp [hand, gen, callE, enableNow, p_enable_now, genK, handK, outOk, execEL, execES, evalArgs, evalA, evalE, argLocals, List.lookup, bind, Except.bind, pure, Except.pure, bindTarget, evalC, arith, applyEff, setTimer, addPend, Eff.arg, Cmd.obs, delayMs, hn, PyVal.truthy]
+  · cases hl : s.limitDue <;> cases hv : c.cfg "max_hold_duration" with
+    | none => simp [hv, PyVal.num] at hn
+    | str x => simp [hv, PyVal.num] at hn
+    | bool b => cases b <;> simp [hand, gen, callE, enableNow, p_enable_now, genK, handK, outOk, execEL, execES, evalArgs, evalA, evalE, argLocals, List.lookup, bind, Except.bind, pure, Except.pure, bindTarget, evalC, arith, applyEff, setTimer, addPend, Eff.arg, Cmd.obs, delayMs, hv, hl, PyVal.truthy, secsToMs, num_int, num_bool]
+    | int i => cases hi : (i != 0) <;> simp [hand, gen, callE, enableNow, p_enable_now, genK, handK, outOk, execEL, execES, evalArgs, evalA, evalE, argLocals, List.lookup, bind, Except.bind, pure, Except.pure, bindTarget, evalC, arith, applyEff, setTimer, addPend, Eff.arg, Cmd.obs, delayMs, hv, hl, PyVal.truthy, secsToMs, num_int, num_bool, num_flt, flt_ms, hi]
+    | flt m => cases hi : (m != 0) <;> simp [hand, gen, callE, enableNow, p_enable_now, genK, handK, outOk, execEL, execES, evalArgs, evalA, evalE, argLocals, List.lookup, bind, Except.bind, pure, Except.pure, bindTarget, evalC, arith, applyEff, setTimer, addPend, Eff.arg, Cmd.obs, delayMs, hv, hl, PyVal.truthy, secsToMs, num_int, num_bool, num_flt, flt_ms, hi]
+    | nan => simp [hand, gen, callE, enableNow, p_enable_now, genK, handK, outOk, execEL, execES, evalArgs, evalA, evalE, argLocals, List.lookup, bind, Except.bind, pure, Except.pure, bindTarget, evalC, arith, applyEff, setTimer, addPend, Eff.arg, Cmd.obs, delayMs, hv, hl, PyVal.truthy, secsToMs, num_int, num_bool, num_nan]
+
+
+theorem pulseW_refines (c : Ctx) (ora : Oracle) (s : Driver.St) (ms pw mw w : PyVal) (hw : PsuAnswers ora w)
+    (hmax : (c.env "max_pulse").num.isSome = true)
+    (hint : ∀ x v, vPulseMs c x = .ok v → v.isInt = true) (hint2 : ∀ x v, vTimedMs c x = .ok v → v.isInt = true) :
+    hand s (doOp c s (.pulseW ms pw mw w)) =
+      gen s (callE c ora pulse [("pulse_ms", ms), ("pulse_power", pw), ("max_wait_ms", mw)]) := by
+  unfold PsuAnswers at hw
+  cases h1 : vPulseMs c ms with
+  | error e =>
+    simp only [vPulseMs] at h1
+    simp [hand, gen, doOp, callE, pulse, vPulseMs, vPulsePower, genK, handK, outOk, execEL, execES, evalArgs, evalA, evalE, argLocals, List.lookup, bind, Except.bind, pure, Except.pure, bindTarget, p_notify_psu_and_get_wait_ms, evalC, arith, applyEff, setTimer, addPend, Eff.arg, Cmd.obs, delayMs, waitOf, h1]
+  | ok pm =>
+    cases h2 : vPulsePower c pw with
+    | error e =>
+      simp only [vPulseMs, vPulsePower] at h1 h2
+      simp [hand, gen, doOp, callE, pulse, vPulseMs, vPulsePower, genK, handK, outOk, execEL, execES, evalArgs, evalA, evalE, argLocals, List.lookup, bind, Except.bind, pure, Except.pure, bindTarget, p_notify_psu_and_get_wait_ms, evalC, arith, applyEff, setTimer, addPend, Eff.arg, Cmd.obs, delayMs, waitOf, h1, h2]
+    | ok pp =>
+      have ipm := hint _ _ h1
+      have key := pulse_now_run c ora s (argLocals [("pulse_ms", pm), ("pulse_power", pp)]) []
+        (by simpa [argLocals, List.lookup] using ipm) hmax hint hint2
+      simp only [vPulseMs, vPulsePower] at h1 h2
+      by_cases hmw : mw = .none
+      · simp [hand, gen, doOp, callE, pulse, vPulseMs, vPulsePower, genK, handK, outOk, execEL, execES, evalArgs, evalA, evalE, argLocals, List.lookup, bind, Except.bind, pure, Except.pure, bindTarget, p_notify_psu_and_get_wait_ms, evalC, arith, applyEff, setTimer, addPend, Eff.arg, Cmd.obs, delayMs, waitOf, h1, h2, hmw, pyCmp, num_int, cmpOp]
+        rw [execEL_frame]
+        simp only [argLocals, List.lookup, genK, handK] at key
+        simp at key
+        rcases hx : execEL c ora (argLocals [("pulse_ms", pm), ("pulse_power", pp)]) [] p_pulse_now with ⟨L1, r1⟩
+        rw [hx] at key
+        rcases r1 with e | (l1 | v) <;> simp [List.foldl_append, applyEff, outOk] at key ⊢ <;> exact key.symm
+      · cases h3 : pyCmp ">" w (.int 0) with
+        | error e => simp [hand, gen, doOp, callE, pulse, vPulseMs, vPulsePower, genK, handK, outOk, execEL, execES, evalArgs, evalA, evalE, argLocals, List.lookup, bind, Except.bind, pure, Except.pure, bindTarget, p_notify_psu_and_get_wait_ms, evalC, arith, applyEff, setTimer, addPend, Eff.arg, Cmd.obs, delayMs, waitOf, h1, h2, hmw, hw, h3]
+        | ok b =>
+          cases b with
+          | true => simp [hand, gen, doOp, callE, pulse, vPulseMs, vPulsePower, genK, handK, outOk, execEL, execES, evalArgs, evalA, evalE, argLocals, List.lookup, bind, Except.bind, pure, Except.pure, bindTarget, p_notify_psu_and_get_wait_ms, evalC, arith, applyEff, setTimer, addPend, Eff.arg, Cmd.obs, delayMs, waitOf, h1, h2, hmw, hw, h3]
+          | false =>
+            simp [hand, gen, doOp, callE, pulse, vPulseMs, vPulsePower, genK, handK, outOk, execEL, execES, evalArgs, evalA, evalE, argLocals, List.lookup, bind, Except.bind, pure, Except.pure, bindTarget, p_notify_psu_and_get_wait_ms, evalC, arith, applyEff, setTimer, addPend, Eff.arg, Cmd.obs, delayMs, waitOf, h1, h2, hmw, hw, h3]
+            rw [execEL_frame]
+            simp only [argLocals, List.lookup, genK, handK] at key
+            simp at key
+            rcases hx : execEL c ora (argLocals [("pulse_ms", pm), ("pulse_power", pp)]) [] p_pulse_now with ⟨L1, r1⟩
+            rw [hx] at key
+            rcases r1 with e | (l1 | v) <;> simp [List.foldl_append, applyEff, outOk] at key ⊢ <;> exact key.symm
+
+
+theorem enableW_refines (c : Ctx) (ora : Oracle) (s : Driver.St) (ms pw hp mw w : PyVal) (hw : PsuAnswers ora w)
+    (hmd : NumOrNone (c.cfg "max_hold_duration")) :
+    hand s (doOp c s (.enableW ms pw hp mw w)) =
+      gen s (callE c ora enable [("pulse_ms", ms), ("pulse_power", pw), ("hold_power", hp), ("max_wait_ms", mw)]) := by
+  unfold PsuAnswers at hw
+  cases h1 : vPulseMs c ms with
+  | error e =>
+    simp only [vPulseMs] at h1
+    simp [hand, gen, doOp, callE, enable, vPulseMs, vPulsePower, vHoldPower, genK, handK, outOk, execEL, execES, evalArgs, evalA, evalE, argLocals, List.lookup, bind, Except.bind, pure, Except.pure, bindTarget, p_notify_psu_and_get_wait_ms, evalC, arith, applyEff, setTimer, addPend, Eff.arg, Cmd.obs, delayMs, waitOf, h1]
+  | ok pm =>
+    cases h2 : vPulsePower c pw with
+    | error e =>
+      simp only [vPulseMs, vPulsePower] at h1 h2
+      by_cases hmw : mw = .none <;> simp [hand, gen, doOp, callE, enable, vPulseMs, vPulsePower, vHoldPower, genK, handK, outOk, execEL, execES, evalArgs, evalA, evalE, argLocals, List.lookup, bind, Except.bind, pure, Except.pure, bindTarget, p_notify_psu_and_get_wait_ms, evalC, arith, applyEff, setTimer, addPend, Eff.arg, Cmd.obs, delayMs, waitOf, h1, h2, hmw]
+    | ok pp =>
+      cases h3 : vHoldPower c hp with
+      | error e =>
+        simp only [vPulseMs, vPulsePower, vHoldPower] at h1 h2 h3
+        by_cases hmw : mw = .none <;> simp [hand, gen, doOp, callE, enable, vPulseMs, vPulsePower, vHoldPower, genK, handK, outOk, execEL, execES, evalArgs, evalA, evalE, argLocals, List.lookup, bind, Except.bind, pure, Except.pure, bindTarget, p_notify_psu_and_get_wait_ms, evalC, arith, applyEff, setTimer, addPend, Eff.arg, Cmd.obs, delayMs, waitOf, h1, h2, h3, hmw]
+      | ok h =>
+        simp only [vPulseMs, vPulsePower, vHoldPower] at h1 h2 h3
+        cases h4 : pyCmp "==" h (.flt 0) with
+        | error e => by_cases hmw : mw = .none <;> simp [hand, gen, doOp, callE, enable, vPulseMs, vPulsePower, vHoldPower, genK, handK, outOk, execEL, execES, evalArgs, evalA, evalE, argLocals, List.lookup, bind, Except.bind, pure, Except.pure, bindTarget, p_notify_psu_and_get_wait_ms, evalC, arith, applyEff, setTimer, addPend, Eff.arg, Cmd.obs, delayMs, waitOf, h1, h2, h3, h4, hmw]
+        | ok z =>
+          cases z with
+          | true => by_cases hmw : mw = .none <;> simp [hand, gen, doOp, callE, enable, vPulseMs, vPulsePower, vHoldPower, genK, handK, outOk, execEL, execES, evalArgs, evalA, evalE, argLocals, List.lookup, bind, Except.bind, pure, Except.pure, bindTarget, p_notify_psu_and_get_wait_ms, evalC, arith, applyEff, setTimer, addPend, Eff.arg, Cmd.obs, delayMs, waitOf, h1, h2, h3, h4, hmw, throw, throwThe, MonadExceptOf.throw]
+          | false =>
+            have key := enable_now_refines c ora s pm pp h hmd
+            rcases hx : execEL c ora (argLocals [("pulse_ms", pm), ("pulse_power", pp), ("hold_power", h)]) [] p_enable_now with ⟨L1, r1⟩
+            simp only [hand, gen, callE, hx] at key
+            by_cases hmw : mw = .none
+            · simp [hand, gen, doOp, callE, enable, vPulseMs, vPulsePower, vHoldPower, genK, handK, outOk, execEL, execES, evalArgs, evalA, evalE, argLocals, List.lookup, bind, Except.bind, pure, Except.pure, bindTarget, p_notify_psu_and_get_wait_ms, evalC, arith, applyEff, setTimer, addPend, Eff.arg, Cmd.obs, delayMs, waitOf, h1, h2, h3, h4, hmw, pyCmp_wait0]
+              rw [execEL_frame]
+              rw [hx]
+              rcases r1 with e | (l1 | v) <;> simp [List.foldl_append, applyEff, outOk] at key ⊢ <;> exact key
+            · cases h5 : pyCmp ">" w (.int 0) with
+              | error e => simp [hand, gen, doOp, callE, enable, vPulseMs, vPulsePower, vHoldPower, genK, handK, outOk, execEL, execES, evalArgs, evalA, evalE, argLocals, List.lookup, bind, Except.bind, pure, Except.pure, bindTarget, p_notify_psu_and_get_wait_ms, evalC, arith, applyEff, setTimer, addPend, Eff.arg, Cmd.obs, delayMs, waitOf, h1, h2, h3, h4, hmw, hw, h5]
+              | ok b =>
+                cases b with
+                | true => simp [hand, gen, doOp, callE, enable, vPulseMs, vPulsePower, vHoldPower, genK, handK, outOk, execEL, execES, evalArgs, evalA, evalE, argLocals, List.lookup, bind, Except.bind, pure, Except.pure, bindTarget, p_notify_psu_and_get_wait_ms, evalC, arith, applyEff, setTimer, addPend, Eff.arg, Cmd.obs, delayMs, waitOf, h1, h2, h3, h4, hmw, hw, h5]
+                | false =>
+                  simp [hand, gen, doOp, callE, enable, vPulseMs, vPulsePower, vHoldPower, genK, handK, outOk, execEL, execES, evalArgs, evalA, evalE, argLocals, List.lookup, bind, Except.bind, pure, Except.pure, bindTarget, p_notify_psu_and_get_wait_ms, evalC, arith, applyEff, setTimer, addPend, Eff.arg, Cmd.obs, delayMs, waitOf, h1, h2, h3, h4, hmw, hw, h5]
+                  rw [execEL_frame]
+                  rw [hx]
+                  rcases r1 with e | (l1 | v) <;> simp [List.foldl_append, applyEff, outOk] at key ⊢ <;> exact key
 
 end MpfVerif.C08
